@@ -93,7 +93,9 @@ type ChainJob struct {
 	Pre     bool              `json:"pre,omitempty"` // record the in-memory response before it is serialised
 	Synth   []SynthPlugin     `json:"synth,omitempty"`
 	Via     string            `json:"via,omitempty"` // "" = plugins.LoadPlugins on a config value
+	YAML    string            `json:"yaml,omitempty"`  // if set: the configuration is this file, loaded with config.Load
 	Sniff   []string          `json:"sniff,omitempty"` // interfaces to sniff for link-level replies
+	FrameWaitUs int           `json:"frame_wait_us,omitempty"` // how long to wait for a frame when nothing was sent by UDP
 	LogHook bool              `json:"-"`
 }
 
@@ -118,6 +120,7 @@ type ReqRes struct {
 	Polls   int      `json:"polls,omitempty"`
 	Matched bool     `json:"matched,omitempty"`
 	WriteErr string  `json:"write_err,omitempty"`
+	NilNoStop []int  `json:"nil_no_stop,omitempty"` // handlers that returned (nil, false)
 }
 
 type ChainOut struct {
@@ -211,6 +214,16 @@ func chainChild() {
 		conf.Server6 = &config.ServerConfig{Plugins: sub(job.V6)}
 	}
 	emit(map[string]any{"stage": "setup"})
+	if job.YAML != "" {
+		path := filepath.Join(dir, "config.yml")
+		os.WriteFile(path, []byte(strings.ReplaceAll(job.YAML, "{DIR}", dir)), 0o644)
+		c, err := config.Load(path)
+		if err != nil {
+			emit(map[string]any{"setup_err": "config.Load: " + err.Error()})
+			return
+		}
+		conf = c
+	}
 	h4, h6, err := plugins.LoadPlugins(conf)
 	if err != nil {
 		emit(map[string]any{"setup_err": err.Error()})
@@ -221,6 +234,33 @@ func chainChild() {
 		if h == nil {
 			emit(map[string]any{"setup_err": fmt.Sprintf("nil DHCPv4 handler #%d returned without error", i)})
 			return
+		}
+	}
+	// every loaded handler is wrapped: a nil response must come with stop (C13)
+	var nilNoStop []int
+	var nnsMu sync.Mutex
+	for i := range h4 {
+		i, h := i, h4[i]
+		h4[i] = func(req, resp *dhcpv4.DHCPv4) (*dhcpv4.DHCPv4, bool) {
+			r, stop := h(req, resp)
+			if r == nil && !stop {
+				nnsMu.Lock()
+				nilNoStop = append(nilNoStop, i)
+				nnsMu.Unlock()
+			}
+			return r, stop
+		}
+	}
+	for i := range h6 {
+		i, h := i, h6[i]
+		h6[i] = func(req, resp dhcpv6.DHCPv6) (dhcpv6.DHCPv6, bool) {
+			r, stop := h(req, resp)
+			if r == nil && !stop {
+				nnsMu.Lock()
+				nilNoStop = append(nilNoStop, i)
+				nnsMu.Unlock()
+			}
+			return r, stop
 		}
 	}
 	// recorder of the in-memory response (C19 "before serialisation")
@@ -332,10 +372,16 @@ func chainChild() {
 			caps = do()
 		}
 		rr.Caps, rr.Ns, rr.Trace = toCaps(caps), int64(time.Since(t0)), rec.take()
+		nnsMu.Lock()
+		rr.NilNoStop, nilNoStop = nilNoStop, nil
+		nnsMu.Unlock()
 		if sniff != nil {
 			wait := time.Duration(0)
 			if len(caps) == 0 {
-				wait = 30 * time.Millisecond
+				wait = time.Duration(job.FrameWaitUs) * time.Microsecond
+				if job.FrameWaitUs == 0 {
+					wait = 500 * time.Microsecond
+				}
 			}
 			rr.Frames = sniff.collect(wait)
 		}
@@ -462,3 +508,15 @@ func panicLine(stderr string) string {
 }
 
 var _ = handler.Handler4(nil)
+
+// noteNilNoStop reports (C13) a built-in handler that returned a nil response
+// without signalling stop; the chain child wraps every loaded handler to see it.
+func noteNilNoStop(ctx interface {
+	Viol(prop, sig, format string, a ...any)
+}, out *ChainOut, conf string) {
+	for _, r := range out.Res {
+		for _, k := range r.NilNoStop {
+			ctx.Viol("C13", fmt.Sprintf("nil-without-stop:handler#%d", k), "%s: handler #%d returned a nil response without signalling stop", conf, k)
+		}
+	}
+}
